@@ -416,12 +416,14 @@ fn exercise(data: &ArrayData) -> Option<String> {
 }
 
 thread_local! {
+    /// panics seen while exercising an accepted array (become tags of the case)
+    static USE: std::cell::RefCell<Vec<String>> = std::cell::RefCell::new(vec![]);
     static ORACLE: std::cell::RefCell<Vec<String>> = std::cell::RefCell::new(vec![]);
 }
 
 fn accepted(data: &ArrayData) -> String {
     if let Some(step) = exercise(data) {
-        ORACLE.with(|o| o.borrow_mut().push(format!("accepted-then-panic:{}", step)));
+        USE.with(|o| o.borrow_mut().push(format!("use-panic:{}", step)));
     }
     "ok wf=1".to_string()
 }
@@ -657,7 +659,7 @@ fn run_case(line: &str) -> String {
                             }
                         }));
                         if r.is_err() {
-                            ORACLE.with(|o| o.borrow_mut().push("accepted-then-panic:batch".into()));
+                            USE.with(|o| o.borrow_mut().push("use-panic:batch".into()));
                         }
                         "ok wf=1".into()
                     }
@@ -1028,7 +1030,8 @@ fn mutate(rng: &mut Rng, p: &mut Phys) -> Option<String> {
             }
             let v = matches!(p.ty, Ty::Null) && p.len.checked_add(p.offset).is_some()
                 || matches!(&p.ty, Ty::Struct(f) if f.is_empty()) && p.nulls.is_none() && p.len.checked_add(p.offset).is_some();
-            Some(format!("mut:huge{}{}", how, if v { " valid" } else { "" }))
+            let ree = matches!(p.ty, Ty::Ree(..)) && p.len.checked_add(p.offset).is_some();
+            Some(format!("mut:huge{}{}{}", how, if v { " valid" } else { "" }, if ree { " kf:ree-len-beyond-run-ends" } else { "" }))
         }
         7 => {
             // short buffer
@@ -1386,6 +1389,8 @@ fn gen_typed_case(rng: &mut Rng) -> (String, String) {
                 let mut q = p.clone();
                 if let Some(t) = mutate(rng, &mut q) {
                     if q.offset != 0 || q.nc.is_some() { continue; }
+                    if t.contains("mut:buffer-added") || t.contains("mut:nulls-not-allowed") { continue; }
+                    if t.contains("mut:child-type") && (kind == "dict" || kind == "run") { continue; }
                     tags.push_str(&format!(" {} nt", t.replace("kf:", "untyped-kf:")));
                     p = q;
                     break;
@@ -1400,15 +1405,43 @@ fn gen_typed_case(rng: &mut Rng) -> (String, String) {
         let line_body = show_phys(&p);
         let verdict = run_case(&format!("C09 tacc {} {}", kind, line_body));
         ORACLE.with(|o| o.borrow_mut().clear());
+        USE.with(|o| o.borrow_mut().clear());
         let op = if verdict.starts_with("ok") { "tacc" } else { "trej" };
         tags.push_str(&format!(" verdict:{}", op));
         return (format!("C09 {} {} {}", op, kind, line_body), tags);
     }
 }
 
+/// struct / fixed-size list with a non-nullable child, a parent validity bitmap and a parent offset:
+/// put one null into the child at a slot owned by a *valid* parent slot (`NullBuffer::contains`
+/// compares the masks without the parent offset)
+fn gen_nonnull_offset_case(rng: &mut Rng) -> (String, String) {
+    let per = if rng.bool() { 0 } else { 1 + rng.usize(2) };
+    let ty = if per == 0 { Ty::Struct(vec![(false, Ty::Prim(1))]) } else { Ty::Fsl(per, Box::new(Ty::Prim(1)), false) };
+    let k = per.max(1);
+    let n = 1 + pick_len(rng).min(70);
+    let off = if rng.chance(1, 5) { 0 } else { 1 + rng.usize(if rng.bool() { 3 } else { 70 }) };
+    let total = off + n;
+    let mut p = gen_valid(rng, &ty, n, off, false, 0);
+    let mut nb = rng.bytes((total + 7) / 8);
+    let i = rng.usize(n);
+    nb[(off + i) / 8] |= 1 << ((off + i) % 8);
+    p.nulls = Some(nb);
+    let c = &mut p.kids[0];
+    let j = (off + i) * k + rng.usize(k);
+    let mut cb = vec![0xffu8; (c.offset + c.len + 7) / 8];
+    cb[(c.offset + j) / 8] &= !(1 << ((c.offset + j) % 8));
+    c.nulls = Some(cb);
+    let op = if rng.bool() { "full" } else { "trynew" };
+    (
+        format!("C09 {} {}", op, show_phys(&p)),
+        format!("type:{} mut:nonnull-child-null directed {} nt op:{}", ty_tag(&ty), if off > 0 { "off>0 kf:nonnull-child-parent-offset" } else { "" }, op),
+    )
+}
+
 fn gen_case(rng: &mut Rng) -> (String, String) {
     match rng.below(20) {
-        0 => gen_align_case(rng),
+        0 => if rng.bool() { gen_align_case(rng) } else { gen_nonnull_offset_case(rng) },
         1 | 2 => gen_batch_case(rng),
         3..=6 => gen_typed_case(rng),
         _ => gen_layout_case(rng),
@@ -1439,12 +1472,19 @@ fn main() {
     let mut sink = Sink::new(&args.out);
     let mut emit = |sink: &mut Sink, line: String, tags: &str| {
         ORACLE.with(|o| o.borrow_mut().clear());
+        USE.with(|o| o.borrow_mut().clear());
         let a = run_case(&line);
         let fails: Vec<String> = ORACLE.with(|o| o.borrow_mut().drain(..).collect());
-        for f in fails {
-            sink.oracle_failure(line.clone(), f, tags);
+        let used: Vec<String> = USE.with(|o| o.borrow_mut().drain(..).collect());
+        let mut tags = tags.to_string();
+        for u in used {
+            tags.push(' ');
+            tags.push_str(&u);
         }
-        sink.case(line, a, tags);
+        for f in fails {
+            sink.oracle_failure(line.clone(), f, &tags);
+        }
+        sink.case(line, a, &tags);
     };
     if args.mode == "replay" {
         for line in read_cases(args.replay.as_ref().unwrap()) {
